@@ -7,7 +7,9 @@ import (
 	"encoding/json"
 	"fmt"
 	"math/rand"
+	"runtime"
 	"sync"
+	"sync/atomic"
 	"testing"
 	"time"
 
@@ -96,21 +98,13 @@ func c57RunBehaviour(raw []byte) ([]map[string]any, string) {
 		return s.Events(), e
 	}
 
-	outcome := "ok"
-	for i, st := range b.Steps {
-		s.Log(map[string]any{"ev": "at", "t": st.T, "p": st.P})
-		if _, err := s.Step(st.T, st.P); err != nil {
-			outcome = gate.StepErr(i, st, err)
-			break
-		}
+	outcome := gate.RunSteps(s, b.Steps, nil, nil, func() map[string]any {
 		got := map[string]any{"fired": ev.HasFired()}
 		if len(b.Owners) > 0 {
 			got["rc"] = int(rc.refCount.Load())
 		}
-		if outcome = gate.CheckExp(i, st, got); outcome != "ok" {
-			break
-		}
-	}
+		return got
+	})
 	if !s.Join(30 * time.Second) {
 		s.Log(map[string]any{"ev": "stuck"})
 		return s.Events(), outcome + "+stuck-in-free-run"
@@ -195,6 +189,108 @@ func TestVerifC57SyncStress(t *testing.T) {
 				})
 			}()
 		}
+		wg.Wait()
+		lg.Add(map[string]any{"ev": "quiescent"})
+	})
+}
+
+// TestVerifC57RefHunt: free-running rounds aimed at the window between the Load and the
+// increment of TryIncrement.  One or two TryIncrement callers are held at the "refc.cas" hook
+// point (they have read a live count), the owner drops the last reference (cleanup runs), the
+// held callers are released, and meanwhile several other users keep calling TryIncrement on the
+// dead object (each announces itself once, after the cleanup was logged, and reports the first
+// success or the final failure).  Everything stays inside the API contract; only the recorded
+// trace is judged (I_NoResurrect, I_ZeroOnce, I_ZeroOnlyAtZero).
+func TestVerifC57RefHunt(t *testing.T) {
+	gate.Stress(t, func(_ int, rng *rand.Rand, j *gate.Jitter, lg *gate.Log) {
+		var rc *RefCounted[int]
+		var toHold atomic.Int32
+		var dead atomic.Bool
+		held := make(chan struct{}, 4)
+		release := make(chan struct{})
+		verifhook.Set(func(p string, o any) {
+			if p != "refc.cas" || o != any(rc) {
+				return
+			}
+			for {
+				n := toHold.Load()
+				if n <= 0 {
+					return
+				}
+				if toHold.CompareAndSwap(n, n-1) {
+					break
+				}
+			}
+			held <- struct{}{}
+			<-release
+		})
+		defer verifhook.Set(nil)
+		rc = NewRefCounted(7, func() {
+			lg.Add(map[string]any{"ev": "on_zero"})
+			dead.Store(true)
+		})
+		lg.Add(map[string]any{"ev": "ref_new", "u": "o1"})
+		dec := func(u string) {
+			lg.Add(map[string]any{"ev": "dec_call", "u": u})
+			rc.Decrement()
+			lg.Add(map[string]any{"ev": "dec_ret", "u": u})
+		}
+		nHold := 1 + rng.Intn(2)
+		toHold.Store(int32(nHold))
+		var wg, hwg sync.WaitGroup
+		for i := 0; i < nHold; i++ {
+			u := fmt.Sprintf("h%d", i)
+			wg.Add(1)
+			hwg.Add(1)
+			go func() {
+				defer wg.Done()
+				c57Guard(lg.Add, func() {
+					lg.Add(map[string]any{"ev": "try_call", "u": u})
+					ok := rc.TryIncrement()
+					lg.Add(map[string]any{"ev": "try_ret", "u": u, "ok": ok})
+					hwg.Done()
+					if ok {
+						dec(u)
+					}
+				})
+			}()
+		}
+		for i := 0; i < nHold; i++ {
+			<-held
+		}
+		var heldDone atomic.Bool
+		for i := 0; i < 3+rng.Intn(4); i++ {
+			u := fmt.Sprintf("s%d", i)
+			wg.Add(1)
+			go func() {
+				defer wg.Done()
+				c57Guard(lg.Add, func() {
+					for !dead.Load() {
+						runtime.Gosched()
+					}
+					// the cleanup was logged before dead was set: every Load below comes after it
+					lg.Add(map[string]any{"ev": "try_call", "u": u})
+					ok, extra := false, 200
+					for n := 0; n < 200000 && extra > 0 && !ok; n++ {
+						ok = rc.TryIncrement()
+						if heldDone.Load() {
+							extra--
+						}
+					}
+					lg.Add(map[string]any{"ev": "try_ret", "u": u, "ok": ok})
+					if ok {
+						dec(u)
+					}
+				})
+			}()
+		}
+		dec("o1") // the last reference: cleanup runs
+		if d := rng.Intn(4); d > 0 {
+			time.Sleep(time.Duration(d*5) * time.Microsecond)
+		}
+		close(release)
+		hwg.Wait()
+		heldDone.Store(true)
 		wg.Wait()
 		lg.Add(map[string]any{"ev": "quiescent"})
 	})
